@@ -29,6 +29,11 @@ pub struct C11Case {
     /// the fault script is one lost datagram per directed link: acknowledged Puts must still succeed (C02)
     #[serde(default)]
     pub bounded_loss: bool,
+    /// the complete to-receiver PDU sequence of Put #0 is handed to its receiver again from this moment on (shortly after the
+    /// end of the receive transaction, mostly before the daemon has cleaned up its routing entry): one new receive transaction
+    /// must take all of it and deliver the file once more
+    #[serde(default)]
+    pub full_replay_at: Option<u64>,
 }
 
 fn fail(tr: &Trace, key: &str, msg: String) -> Fail {
@@ -80,6 +85,18 @@ pub fn check_isolation(case: &C11Case, tr: &Trace) -> Result<Vec<&'static str>, 
                 tr,
                 "indication-for-foreign-transaction",
                 format!("entity {} got a {} indication for {id}, which is neither one of its Puts / receptions nor a stray delivered to it", r.entity, ind_kind(&r.ind)),
+            ));
+        }
+    }
+    // ---- a complete replay of Put #0's PDUs after its end starts exactly one new receive transaction, which gets all of them
+    if let Some(t0) = case.full_replay_at {
+        labels.push("full-replay-after-end");
+        let p0 = &sc.puts[0];
+        if !tr.finished_inds(p0.to, ids[0]).iter().any(|(t, f)| *t >= t0 && is_success(f)) {
+            return Err(fail(
+                tr,
+                "replayed-exchange-not-taken-by-one-transaction",
+                format!("every PDU the receiver of Put #0 ({}) had got was delivered to it again, in order, from {t0} ms on (after the end of its receive transaction), yet no receive transaction reported the delivery again", ids[0]),
             ));
         }
     }
@@ -390,7 +407,36 @@ pub fn build(seed: u64, lossy: bool, with_strays: bool, with_replay: bool, bound
         }
         replayed_puts.push(0);
     }
-    C11Case { sc, stray_ids, replayed_puts, bounded_loss }
+    C11Case { sc, stray_ids, replayed_puts, bounded_loss, full_replay_at: None }
+}
+
+/// A sender re-using an id (or a link replaying a whole exchange): every PDU the receiver of Put #0 got, in order, again, starting
+/// 5..1400 ms after its receive transaction ended - inside or just after the window in which the daemon's routing table still
+/// holds the channel of the ended transaction. Loss-free scenario without strays.
+pub fn build_full_replay(seed: u64) -> C11Case {
+    let mut c = build(seed, false, false, false, false);
+    let mut rng = Prng::new(seed ^ 0xF011_4E91A7);
+    let tr = run_scenario(&c.sc);
+    let id0 = c.sc.put_id(0);
+    let p0 = c.sc.puts[0].clone();
+    let Some(end_r) = tr.terminated_at(p0.to, id0) else {
+        return c;
+    };
+    let cand: Vec<&Dgram> = tr
+        .dgrams
+        .iter()
+        .filter(|d| !d.injected && d.from == p0.from && d.to == p0.to && d.pdu.as_ref().map(|p| pdu_tid(p) == id0 && p.header.direction == Direction::ToReceiver).unwrap_or(false))
+        .collect();
+    let t0 = end_r + 5 + if rng.chance(3, 4) { rng.below(700) } else { rng.below(1400) };
+    let mut t = t0;
+    for d in &cand {
+        c.sc.actions.push(Action { trigger: Trigger::AtMs(t), entity: d.to, kind: ActionKind::Inject { to: d.to, as_from: d.from, bytes: d.bytes.clone() } });
+        t += rng.below(3);
+    }
+    c.sc.horizon_ms = c.sc.horizon_ms.max(t + 60_000);
+    c.replayed_puts.push(0);
+    c.full_replay_at = Some(t0);
+    c
 }
 
 /// A burst: a puppet sender hands 120..320 datagrams of one (or two interleaved) unacknowledged transfers to the real daemon in
@@ -458,7 +504,7 @@ pub fn build_burst(seed: u64) -> C11Case {
             }
         }
     }
-    C11Case { sc, stray_ids: vec![], replayed_puts: vec![], bounded_loss: false }
+    C11Case { sc, stray_ids: vec![], replayed_puts: vec![], bounded_loss: false, full_replay_at: None }
 }
 
 fn rng_u(seed: u64, j: u64) -> u64 {
@@ -472,7 +518,7 @@ pub fn run(ctx: &mut Ctx) {
     ctx.rule = "seeded generation: 2-3 real daemons (id widths 1/2/4/8, different configurations per daemon), 2..8 (one in four: up to 24) Puts issued within 30 ms in any direction (in half of the scenarios all daemons number their transactions from the same start value; one Put in five is fire-and-forget: its user drops the channel on which the id is answered), acknowledged and unacknowledged, sizes \
 {0,1,seg,3seg+5,6seg}, contents tagged per transaction, destinations in per-sender directories; six families: loss-free, loss-free + strays, one lost datagram per directed link (acknowledged Puts must still succeed) with and without strays, lossy (per-datagram loss 1..20 %, delays, duplicates on every link) + strays, and \
 loss-free + strays + replay of a random subset of the PDUs of Put #0 after it has ended, plus reflections of its PDUs back to the entity that emitted them around the end of that transaction. Strays (1..12 per scenario, plus up to 3 responses that carry the sequence number of a live send transaction but another source entity): ACK/NAK/Finished for a sender that does not exist, PDUs naming entity 77 (no transport), Metadata / FileData / EOF / \
-Prompt / ACK(Finished) with fresh ids from a known peer. A seventh family hands 120..320 datagrams of one or two unacknowledged transfers (puppet sender) to the daemon in one instant while the receive transactions are polled late (H5), so that a transaction's mailbox runs full. Non-trivial = two transactions overlapped in time on one daemon, or at least one stray PDU was routed, or a burst of more than 100 datagrams was handed over; distinct by scenario."
+Prompt / ACK(Finished) with fresh ids from a known peer. A seventh family hands 120..320 datagrams of one or two unacknowledged transfers (puppet sender) to the daemon in one instant while the receive transactions are polled late (H5), so that a transaction's mailbox runs full. An eighth (full-replay-after-end) delivers every PDU the receiver of Put #0 had got once more, in order, 5..1400 ms after its receive transaction ended (mostly before the routing entry of the ended transaction is cleaned up): one new receive transaction must take all of it and report the delivery again. Non-trivial = two transactions overlapped in time on one daemon, or at least one stray PDU was routed, or a burst of more than 100 datagrams was handed over; distinct by scenario."
         .into();
     ctx.assumptions = vec![
         "stray ids are disjoint from live transactions; stray Metadata names destinations under stray/; offsets < 1000".into(),
@@ -494,6 +540,9 @@ Prompt / ACK(Finished) with fresh ids from a known peer. A seventh family hands 
         let n = ctx.tier.pick(nq, nt);
         ctx.drive_indexed(&part, n, false, |i| build(mix(seed ^ hash_str(name), i), lossy, strays, replay, bounded));
     }
+    let n = ctx.tier.pick(600u64, 30_000);
+    ctx.section = "full-replay-after-end".into();
+    ctx.drive_indexed(&part, n, false, |i| build_full_replay(mix(seed ^ 0xF0117, i)));
     let n = ctx.tier.pick(400u64, 6_000);
     ctx.section = "burst-into-one-mailbox".into();
     ctx.drive_indexed(&part, n, false, |i| build_burst(mix(seed ^ 0xB0257, i)));
